@@ -367,5 +367,5 @@ func tagMarksRendered(r *core.Run) {
 			return true
 		})
 	})
-	r.Floor("R-COVER/tagmark", 2, "tags and qualifiers in doBlockHeader")
+	r.Floor("R-COVER/tagmark", 1, "tags and qualifiers in doBlockHeader (one loop when a helper renders both)")
 }
